@@ -112,6 +112,10 @@ def render(case, d, seed):
                     lines.append("  - {__type__: vp.fx_daemon.%s%s, %s}" % (rnd.choice(["", "", "Site.", "Site.Inner."]), c, args))
         else:
             lines.append("__config_test: {a: 1}")
+            if not use_logging and (seed // 10) % 2:
+                # ... or a configuration that is altogether empty (comments, a bare document
+                # marker, an empty mapping): there is no pipeline in it either
+                lines = [rnd.choice(["# nothing configured yet", "---", "{}", "---\n# nothing"])]
         if err == "syntax":
             lines.append("  - [unbalanced")
         if err == "multidoc":
